@@ -218,6 +218,12 @@ class Kernel:
                   if isinstance(n, ast.Name) and isinstance(n.ctx, ast.Store)}
         cs = [n for n in sorted({x.id for x in ast.walk(w.test)
                                  if isinstance(x, ast.Name)}) if n in stored]
+        leaves = any(isinstance(x, (ast.Break, ast.Return, ast.Raise))
+                     for s in w.body for x in ast.walk(s))
+        if not cs and not leaves:
+            return {"error": f"nothing in `while {ast.unparse(w.test)}` "
+                    "changes during a round: the loop cannot terminate",
+                    "line": w.lineno, "definite": True}
         if len(cs) != 1:
             return {"error": f"loop test `{ast.unparse(w.test)}` not "
                     "recognised (no single counter)", "line": w.lineno}
@@ -235,14 +241,27 @@ class Kernel:
         except Unsupported:
             return {"error": "loop test not normalised", "line": w.lineno}
         low = _lower_bound(cond, csym)
-        if low is None:
-            return {"error": f"loop test `{ast.unparse(w.test)}` not "
-                    "recognised as a lower bound of the counter",
-                    "line": w.lineno}
         try:
             ps = paths(list(w.body))
         except ValueError:
             return {"error": "loop body not understood (too many paths)",
+                    "line": w.lineno}
+        if low is None:
+            # a test that bounds the counter from ABOVE while every round
+            # lowers it: the loop runs forever or not at all
+            up = _lower_bound(c_not(cond), csym)
+            try:
+                falling = all(not p.ended and c in p.env and ev.num(
+                    e1, p.env[c]) - csym == -ONE for p in ps)
+            except Unsupported:
+                falling = False
+            if up is not None and falling and not leaves:
+                return {"error": f"`while {ast.unparse(w.test)}` bounds the "
+                        f"falling counter `{c}` from above: the loop runs "
+                        "forever or never", "line": w.lineno,
+                        "definite": True}
+            return {"error": f"loop test `{ast.unparse(w.test)}` not "
+                    "recognised as a lower bound of the counter",
                     "line": w.lineno}
         items: list[tuple[tuple, Any]] = []
         index_ok = True
@@ -425,7 +444,9 @@ def dest(ctx: Ctx) -> None:
         per = Poly()
         flagged = Poly()
         for lp in km.loops:
-            if lp.get("error"):
+            if lp.get("error") and lp.get("definite"):
+                problems.append(f"loop at line {lp['line']}: {lp['error']}")
+            elif lp.get("error"):
                 problems.append(f"loop at line {lp['line']} not understood: "
                                 f"{lp['error']}")
             elif not lp["index_ok"]:
